@@ -206,6 +206,26 @@ def absorb(chk: Check, case, res: dict, batch) -> int:
     return batch.add_built(res["trace"], {"case": case.index})
 
 
+def parameterless_differential(chk: Check) -> None:
+    """Failing tests whose counterexample binds no input (no parameters, or a violation that ignores them): with the cache
+    on, the solver's reply to `(get-unsat-core)` on a satisfiable query is an error line next to `sat` - the verdict and the
+    (empty) counterexample must be what they are with the cache off."""
+    from harness.artifacts import Contract, Fn, arg, panic, run_contract
+
+    c = Contract("NoInputs", [Fn("setUp()", ["STOP"]), Fn("check_const()", panic(1)), Fn("check_ignored(uint256)", panic(1)),
+                              Fn("check_input(uint256)", arg(0) + [("PUSH", 7), "EQ", ("PUSHL", "b"), "JUMPI", "STOP", ("LABEL", "b")] + panic(1))])
+    res = {}
+    for tag, cli in (("off", ()), ("on", ("--cache-solver",))):
+        out = run_contract(c, cli=cli + ("--solver-threads", "1"))
+        if out.exception:
+            raise MachineryError(f"run_contract raised {out.exception}")
+        res[tag] = {r.name: (r.exitcode, r.num_models) for r in out.results}
+    chk.count("traces_validated_against_impl")
+    chk.nontrivial(("parameterless-differential",))
+    if res["off"] != res["on"] or any(v[0] != 1 for v in res["off"].values()):
+        chk.violation("differential:counterexample-without-inputs", f"failing tests without a counterexample variable: cache off {res['off']}, cache on {res['on']} (each must be FAIL with one counterexample in both)", res)
+
+
 def run(chk: Check, tier: str):
     work = workdir("c16")
     bg = Background()
@@ -222,6 +242,7 @@ def run(chk: Check, tier: str):
         for k in range(nshards):
             bg.start(f"shard{k}", _subprocess, "shard", cases[k::nshards], work, f"shard{k}")
 
+        parameterless_differential(chk)
         # 4. parse_unsat_core
         shapes = uc.unsatcache_parse_shapes(work / "shapes")
         bad = uc.unsatcache_check_shapes(shapes)
